@@ -26,19 +26,23 @@ public:
 
     LineWriter& operator<<(const Line& line)
     {
+        terminate_last_line();
         m_file << line.content;
         *this << line.newline;
+        m_last_line_is_unterminated = line.newline == NewLine::None;
         return *this;
     }
 
     LineWriter& operator<<(const char* content)
     {
+        terminate_last_line();
         m_file << content;
         return *this;
     }
 
     LineWriter& operator<<(const std::string& content)
     {
+        terminate_last_line();
         m_file << content;
         return *this;
     }
@@ -47,6 +51,8 @@ public:
     {
         if (newline == NewLine::None)
             return *this;
+
+        m_last_line_is_unterminated = false;
 
         if (m_options.newline_output == Options::NewlineOutput::Native
             || m_options.newline_output == Options::NewlineOutput::LF) {
@@ -68,8 +74,17 @@ public:
     }
 
 private:
+    // Only the last line of a file may be missing its newline. If more is written after a line which does (it was the
+    // last line of the file being patched, but lines are added after it) then it is a line of its own nevertheless.
+    void terminate_last_line()
+    {
+        if (m_last_line_is_unterminated)
+            *this << NewLine::LF;
+    }
+
     File& m_file;
     const Options& m_options;
+    bool m_last_line_is_unterminated { false };
 };
 
 static LineNumber write_define_hunk(LineWriter& output, const Hunk& hunk, const Location& location, const std::vector<Line>& lines, const std::string& define)
